@@ -313,3 +313,118 @@ apply Finset.sum_congr rfl
 intro i hi'
 exact h i (Finset.mem_Ico.mp hi').1 (Finset.mem_Ico.mp hi').2
 """)
+
+
+# ---- one term of the short-time expansion of the density-matrix propagator ---------------------------------------------
+_H2 = "(range(0, N), range(0, N))"
+HERM2 = "forall((a, b), %s, conj({X}[a,b]) == {X}[b,a])" % _H2
+TR2 = "Sum(a, range(0, N), {X}[a,a])"
+COMM_FORM = ("forall((a, b), %s, n1[a,b] == -((1j*c)*(Sum(k, range(0, N), H[a,k]*r1[k,b]) - "
+             "Sum(k, range(0, N), r1[a,k]*H[k,b]))))" % _H2)
+_HERM1 = """
+have herm1 : ∀ (a b : ℤ), 0 ≤ a → a < N → 0 ≤ b → b < N → (starRingEnd ℂ) (n1 a b) = n1 b a := by
+  intro a b ha0 haN hb0 hbN
+  rw [hn1 a b ha0 haN hb0 hbN, hn1 b a hb0 hbN ha0 haN]
+  simp only [map_neg, map_mul, map_sub, map_sum, Complex.conj_I, Complex.conj_ofReal]
+  have e1 : ∑ k ∈ Finset.Ico (0:ℤ) N, (starRingEnd ℂ) (H a k) * (starRingEnd ℂ) (r1 k b)
+          = ∑ k ∈ Finset.Ico (0:ℤ) N, r1 b k * H k a := by
+    apply Finset.sum_congr rfl
+    intro k hk
+    have hk' := Finset.mem_Ico.mp hk
+    rw [hH a k ha0 haN hk'.1 hk'.2, hr1 k b hk'.1 hk'.2 hb0 hbN]; ring
+  have e2 : ∑ k ∈ Finset.Ico (0:ℤ) N, (starRingEnd ℂ) (r1 a k) * (starRingEnd ℂ) (H k b)
+          = ∑ k ∈ Finset.Ico (0:ℤ) N, H b k * r1 k a := by
+    apply Finset.sum_congr rfl
+    intro k hk
+    have hk' := Finset.mem_Ico.mp hk
+    rw [hr1 a k ha0 haN hk'.1 hk'.2, hH k b hk'.1 hk'.2 hb0 hbN]; ring
+  rw [e1, e2]; ring
+have tr1 : ∑ a ∈ Finset.Ico (0:ℤ) N, n1 a a = 0 := by
+  have e : ∀ a ∈ Finset.Ico (0:ℤ) N, n1 a a = -((Complex.I * ((c : ℝ) : ℂ)) * ((∑ k ∈ Finset.Ico (0:ℤ) N, H a k * r1 k a) - (∑ k ∈ Finset.Ico (0:ℤ) N, r1 a k * H k a))) := by
+    intro a ha
+    have ha' := Finset.mem_Ico.mp ha
+    exact hn1 a a ha'.1 ha'.2 ha'.1 ha'.2
+  rw [Finset.sum_congr rfl e, Finset.sum_neg_distrib, ← Finset.mul_sum, Finset.sum_sub_distrib]
+  have sw : ∑ a ∈ Finset.Ico (0:ℤ) N, ∑ k ∈ Finset.Ico (0:ℤ) N, r1 a k * H k a
+          = ∑ a ∈ Finset.Ico (0:ℤ) N, ∑ k ∈ Finset.Ico (0:ℤ) N, H a k * r1 k a := by
+    rw [Finset.sum_comm]
+    apply Finset.sum_congr rfl; intro x _
+    apply Finset.sum_congr rfl; intro y _
+    ring
+  rw [sw]; simp
+"""
+_STEP2 = """
+refine ⟨herm1, tr1, ?_, ?_⟩
+· intro a b ha0 haN hb0 hbN
+  rw [hn2 a b ha0 haN hb0 hbN, hn2 b a hb0 hbN ha0 haN, map_add, hr2 a b ha0 haN hb0 hbN, herm1 a b ha0 haN hb0 hbN]
+· have e : ∀ a ∈ Finset.Ico (0:ℤ) N, n2 a a = r2 a a + n1 a a := by
+    intro a ha
+    have ha' := Finset.mem_Ico.mp ha
+    exact hn2 a a ha'.1 ha'.2 ha'.1 ha'.2
+  rw [Finset.sum_congr rfl e, Finset.sum_add_distrib, tr1, add_zero]
+"""
+STEP_CONCL = ("(%s) and (%s == 0) and (%s) and (%s == %s)"
+              % (HERM2.format(X="n1"), TR2.format(X="n1"), HERM2.format(X="n2"), TR2.format(X="n2"), TR2.format(X="r2")))
+lemma("commutator_term",
+      types={"N": "int", "c": "real", "H": "carr2", "r1": "carr2", "n1": "carr2"},
+      hyps=[("hH", HERM2.format(X="H")), ("hr1", HERM2.format(X="r1")), ("hn1", COMM_FORM)],
+      concl="(%s) and (%s == 0)" % (HERM2.format(X="n1"), TR2.format(X="n1")),
+      proof=_HERM1 + "\nexact ⟨herm1, tr1⟩\n")
+lemma("hamiltonian_step",
+      types={"N": "int", "c": "real", "H": "carr2", "r1": "carr2", "r2": "carr2", "n1": "carr2", "n2": "carr2"},
+      hyps=[("hH", HERM2.format(X="H")), ("hr1", HERM2.format(X="r1")), ("hr2", HERM2.format(X="r2")),
+            ("hn1", COMM_FORM), ("hn2", "forall((a, b), %s, n2[a,b] == r2[a,b] + n1[a,b])" % _H2)],
+      concl=STEP_CONCL, proof=_HERM1 + _STEP2)
+lemma("tensor_term",
+      types={"N": "int", "R": "carr4", "r": "carr2", "T": "carr2"},
+      hyps=[("hRt", "forall((c, d), %s, Sum(a, range(0, N), R[a,a,c,d]) == 0)" % _H2),
+            ("hRh", "forall((a, b, c, d), (range(0, N), range(0, N), range(0, N), range(0, N)), conj(R[a,b,c,d]) == R[b,a,d,c])"),
+            ("hr", HERM2.format(X="r")),
+            ("hT", "forall((a, b), %s, T[a,b] == Sum(c, range(0, N), Sum(d, range(0, N), R[a,b,c,d]*r[c,d])))" % _H2)],
+      concl="(%s) and (%s == 0)" % (HERM2.format(X="T"), TR2.format(X="T")),
+      proof="""
+constructor
+· intro a b ha0 haN hb0 hbN
+  rw [hT a b ha0 haN hb0 hbN, hT b a hb0 hbN ha0 haN, map_sum]
+  rw [Finset.sum_comm]
+  apply Finset.sum_congr rfl
+  intro d hd
+  have hd' := Finset.mem_Ico.mp hd
+  rw [map_sum]
+  apply Finset.sum_congr rfl
+  intro c hc
+  have hc' := Finset.mem_Ico.mp hc
+  rw [map_mul, hRh a b d c ha0 haN hb0 hbN hd'.1 hd'.2 hc'.1 hc'.2, hr d c hd'.1 hd'.2 hc'.1 hc'.2]
+· have e : ∀ a ∈ Finset.Ico (0:ℤ) N, T a a = ∑ c ∈ Finset.Ico (0:ℤ) N, ∑ d ∈ Finset.Ico (0:ℤ) N, R a a c d * r c d := by
+    intro a ha
+    have ha' := Finset.mem_Ico.mp ha
+    exact hT a a ha'.1 ha'.2 ha'.1 ha'.2
+  rw [Finset.sum_congr rfl e, Finset.sum_comm]
+  apply Finset.sum_eq_zero
+  intro c hc
+  have hc' := Finset.mem_Ico.mp hc
+  rw [Finset.sum_comm]
+  apply Finset.sum_eq_zero
+  intro d hd
+  have hd' := Finset.mem_Ico.mp hd
+  rw [← Finset.sum_mul, hRt c d hc'.1 hc'.2 hd'.1 hd'.2, zero_mul]
+""")
+lemma("add_scaled",
+      types={"N": "int", "c": "real", "A": "carr2", "T": "carr2", "r2": "carr2", "n1": "carr2", "n2": "carr2"},
+      hyps=[("hA", HERM2.format(X="A")), ("hAt", TR2.format(X="A") + " == 0"),
+            ("hT", HERM2.format(X="T")), ("hTt", TR2.format(X="T") + " == 0"), ("hr2", HERM2.format(X="r2")),
+            ("hn1", "forall((a, b), %s, n1[a,b] == A[a,b] + c*T[a,b])" % _H2),
+            ("hn2", "forall((a, b), %s, n2[a,b] == r2[a,b] + n1[a,b])" % _H2)],
+      concl=STEP_CONCL,
+      proof="""
+have herm1 : ∀ (a b : ℤ), 0 ≤ a → a < N → 0 ≤ b → b < N → (starRingEnd ℂ) (n1 a b) = n1 b a := by
+  intro a b ha0 haN hb0 hbN
+  rw [hn1 a b ha0 haN hb0 hbN, hn1 b a hb0 hbN ha0 haN, map_add, map_mul, Complex.conj_ofReal,
+      hA a b ha0 haN hb0 hbN, hT a b ha0 haN hb0 hbN]
+have tr1 : ∑ a ∈ Finset.Ico (0:ℤ) N, n1 a a = 0 := by
+  have e : ∀ a ∈ Finset.Ico (0:ℤ) N, n1 a a = A a a + ((c : ℝ) : ℂ) * T a a := by
+    intro a ha
+    have ha' := Finset.mem_Ico.mp ha
+    exact hn1 a a ha'.1 ha'.2 ha'.1 ha'.2
+  rw [Finset.sum_congr rfl e, Finset.sum_add_distrib, ← Finset.mul_sum, hAt, hTt]; simp
+""" + _STEP2)
